@@ -504,6 +504,8 @@ func runC05(cfg *vh.Config) error {
 			}
 		}
 	}
+	// the printer's two order decisions on every printed file (original and re-parsed descriptor), no budget
+	orders := &orderCollector{seen: vh.Distinct{}, max: cfg.Scale(2000, 20000)}
 	// file layer: descriptor + real tokens of its printed text, for model/ProtoPrintFileCorr.v
 	type fileCaseRec struct {
 		term, where string
@@ -527,6 +529,8 @@ func runC05(cfg *vh.Config) error {
 			return
 		}
 		fileSeen.Add(out.Txt1)
+		orders.file(fd)
+		orders.file(out.Fd2)
 		if fileToks[stream] >= maxFileToks[stream] {
 			res.Count("file-layer:over the token budget of this tier")
 			return
@@ -840,9 +844,29 @@ func runC05(cfg *vh.Config) error {
 	if err != nil {
 		return err
 	}
+	// order decisions: a fourth family of shards
+	od := &vh.CasesFile{
+		Header: "From Coq Require Import String List NArith ZArith.\nFrom J5V.model Require Import ProtoPrintLit ProtoPrint ProtoPrintCorr ProtoPrintFile ProtoPrintFileCorr.",
+		Type:   "c05order",
+		Check:  "c05_order_check",
+	}
+	for i, t := range orders.terms {
+		caseNo++
+		res.Count("order-decision")
+		od.Terms = append(od.Terms, t)
+		res.Cases = append(res.Cases, vh.CaseRec{Case: caseNo, Stream: "order-decision", Shard: fmt.Sprintf("order_%d", i/per), Pos: i % per, Input: orders.where[i], Impl: t})
+	}
+	for _, f := range orders.fails {
+		res.Notes = append(res.Notes, "order-decision: OptionsFor failed: "+trim(f, 120))
+	}
+	res.Distribution["order-decision:descriptors contributing new pairs"] = orders.files
+	odshards, err := od.WriteShards(cfg.Out, "order", per)
+	if err != nil {
+		return err
+	}
 	res.Evaluations = caseNo
 	res.Distinct = len(distinct)
-	res.Shards = append(append(shards, oshards...), fshards...)
+	res.Shards = append(append(append(shards, oshards...), fshards...), odshards...)
 	return res.Write(cfg.Out)
 }
 
